@@ -134,6 +134,11 @@ type Exec struct {
 	globalsSeen      map[string]*ssa.Global
 	noOpaqueDispatch int
 	pendingRows      []modEntry
+	facts            map[int]map[int]bool
+	quantDepth       int
+	selectReturn     int // >= 0: keep only this return point of the target call
+	numReturns       int
+	oblAtReturn      int
 }
 
 type modEntry struct {
@@ -144,13 +149,19 @@ type modEntry struct {
 
 func NewExec(eng *Engine) *Exec {
 	return &Exec{w: NewWorld(), prog: eng.prog, eng: eng, compSort: map[string]Sort{},
-		assumeID: map[int]bool{}, oblNames: map[string]int{}, notes: map[string]bool{}, inlineMax: 8, modCache: map[*ssa.Function]modset{}}
+		assumeID: map[int]bool{}, oblNames: map[string]int{}, notes: map[string]bool{}, inlineMax: 8, modCache: map[*ssa.Function]modset{}, selectReturn: -1}
 }
 
 func (x *Exec) note(format string, a ...any) { x.notes[fmt.Sprintf(format, a...)] = true }
 
 func (x *Exec) assume(t *Term) {
 	if t.isTrue() || x.assumeID[t.id] {
+		return
+	}
+	x.recordFacts(t)
+	if t.open {
+		// produced while translating a quantifier body (validity facts about
+		// values that depend on the bound variable): cannot be a global fact
 		return
 	}
 	x.assumeID[t.id] = true
@@ -168,7 +179,8 @@ func (x *Exec) position(p token.Pos) token.Position {
 
 func (x *Exec) oblige(st *State, kind, detail string, cond *Term, pos token.Pos) {
 	ts := x.w.ts
-	goal := ts.Implies(st.guard, cond)
+	cond = x.dropKnown(st.guard, cond)
+	goal := ts.Implies(st.guard, x.skolemize(cond))
 	if goal.isTrue() {
 		return
 	}
@@ -470,6 +482,7 @@ type Frame struct {
 type retPoint struct {
 	st   *State
 	vals []Value
+	rel  *Term
 }
 
 func (x *Exec) get(fr *Frame, v ssa.Value) Value {
@@ -606,14 +619,22 @@ func (x *Exec) mergeAddr(c *Term, a, b *Addr) *Addr {
 }
 
 func (x *Exec) mergeStates(conds []*Term, sts []*State) *State {
+	return x.mergeStatesRel(conds, conds, sts)
+}
+
+// mergeStatesRel: guards are the absolute path conditions (their disjunction
+// is the new guard); rels are mutually exclusive selectors used in the ite
+// chains (path conditions relative to the function entry, so merged values
+// do not mention the caller's path condition).
+func (x *Exec) mergeStatesRel(guards, conds []*Term, sts []*State) *State {
 	ts := x.w.ts
 	if len(sts) == 1 {
 		s := sts[0].clone()
-		s.guard = conds[0]
+		s.guard = guards[0]
 		return s
 	}
 	out := &State{heap: map[string]*Term{}}
-	out.guard = ts.Or(conds...)
+	out.guard = ts.Or(guards...)
 	keys := map[string]bool{}
 	for _, s := range sts {
 		for k := range s.heap {
@@ -699,6 +720,8 @@ func (x *Exec) callFunction(fn *ssa.Function, args []Value, bindings []Value, st
 	order := fr.loops.order
 	out := map[*ssa.BasicBlock]*State{}                     // state at end of block
 	edgeCond := map[[2]int]*Term{}                          // (from,to) -> condition
+	edgeRel := map[[2]int]*Term{}                           // (from,to) -> condition relative to the entry
+	rel := map[*ssa.BasicBlock]*Term{}
 	headerHavoc := map[*ssa.BasicBlock]map[*ssa.Phi]*Term{} // not used outside; kept for clarity
 	_ = headerHavoc
 	var rets []retPoint
@@ -707,10 +730,12 @@ func (x *Exec) callFunction(fn *ssa.Function, args []Value, bindings []Value, st
 	for _, b := range order {
 		var st0 *State
 		var inConds []*Term
+		var inRels []*Term
 		var inStates []*State
 		var inPreds []*ssa.BasicBlock
 		if b == fn.Blocks[0] {
 			st0 = st.clone()
+			rel[b] = ts.True()
 		} else {
 			for _, p := range b.Preds {
 				if fr.loops.isBackEdge(p, b) {
@@ -725,13 +750,15 @@ func (x *Exec) callFunction(fn *ssa.Function, args []Value, bindings []Value, st
 					continue
 				}
 				inConds = append(inConds, c)
+				inRels = append(inRels, edgeRel[[2]int{p.Index, b.Index}])
 				inStates = append(inStates, ps)
 				inPreds = append(inPreds, p)
 			}
 			if len(inStates) == 0 {
 				continue // unreachable
 			}
-			st0 = x.mergeStates(inConds, inStates)
+			st0 = x.mergeStatesRel(inConds, inRels, inStates)
+			rel[b] = ts.Or(inRels...)
 		}
 		// phis
 		phiVals := map[*ssa.Phi]Value{}
@@ -753,7 +780,7 @@ func (x *Exec) callFunction(fn *ssa.Function, args []Value, bindings []Value, st
 				if cur == nil {
 					cur = ev
 				} else {
-					cur = x.mergeVals(inConds[i], ev, cur)
+					cur = x.mergeVals(inRels[i], ev, cur)
 				}
 			}
 			phiVals[phi] = cur
@@ -778,17 +805,21 @@ func (x *Exec) callFunction(fn *ssa.Function, args []Value, bindings []Value, st
 				c := x.term(fr, in.Cond)
 				edgeCond[[2]int{b.Index, b.Succs[0].Index}] = ts.And(st0.guard, c)
 				edgeCond[[2]int{b.Index, b.Succs[1].Index}] = ts.And(st0.guard, ts.Not(c))
+				edgeRel[[2]int{b.Index, b.Succs[0].Index}] = ts.And(rel[b], c)
+				edgeRel[[2]int{b.Index, b.Succs[1].Index}] = ts.And(rel[b], ts.Not(c))
 				if b.Succs[0] == b.Succs[1] {
 					edgeCond[[2]int{b.Index, b.Succs[0].Index}] = st0.guard
+					edgeRel[[2]int{b.Index, b.Succs[0].Index}] = rel[b]
 				}
 			case *ssa.Jump:
 				edgeCond[[2]int{b.Index, b.Succs[0].Index}] = st0.guard
+				edgeRel[[2]int{b.Index, b.Succs[0].Index}] = rel[b]
 			case *ssa.Return:
 				vals := make([]Value, len(in.Results))
 				for i, r := range in.Results {
 					vals[i] = x.get(fr, r)
 				}
-				rets = append(rets, retPoint{st: st0, vals: vals})
+				rets = append(rets, retPoint{st: st0, vals: vals, rel: rel[b]})
 				alive = false
 			case *ssa.Panic:
 				x.doPanic(fr, in, st0)
@@ -819,13 +850,23 @@ func (x *Exec) callFunction(fn *ssa.Function, args []Value, bindings []Value, st
 	if len(rets) == 0 {
 		return nil, nil
 	}
+	if fn == x.targetFn && x.target != nil && x.target.SplitRet && len(x.stack) >= 2 && x.stack[len(x.stack)-2] == x.target.harness {
+		x.numReturns = len(rets)
+		x.oblAtReturn = len(x.obls)
+		if x.selectReturn >= 0 && x.selectReturn < len(rets) {
+			rets = rets[x.selectReturn : x.selectReturn+1]
+			fr.narrowed = true
+		}
+	}
 	conds := make([]*Term, len(rets))
+	rels := make([]*Term, len(rets))
 	sts := make([]*State, len(rets))
 	for i, r := range rets {
 		conds[i] = r.st.guard
+		rels[i] = r.rel
 		sts[i] = r.st
 	}
-	final := x.mergeStates(conds, sts)
+	final := x.mergeStatesRel(conds, rels, sts)
 	if !fr.narrowed && len(fr.loops.list) == 0 {
 		// every path from the entry reaches a return: the disjunction of the
 		// return guards is the entry guard
@@ -839,7 +880,7 @@ func (x *Exec) callFunction(fn *ssa.Function, args []Value, bindings []Value, st
 			if cur == nil {
 				cur = rets[i].vals[k]
 			} else {
-				cur = x.mergeVals(conds[i], rets[i].vals[k], cur)
+				cur = x.mergeVals(rels[i], rets[i].vals[k], cur)
 			}
 		}
 		res[k] = cur
@@ -993,4 +1034,101 @@ func analyzeLoops(fn *ssa.Function) *loopInfo {
 		lp.ordinal = i
 	}
 	return li
+}
+
+// skolemize replaces universally quantified variables in positive positions
+// of a goal by fresh constants (validity-preserving).
+func (x *Exec) skolemize(t *Term) *Term {
+	ts := x.w.ts
+	switch {
+	case t.kind == kQuant && t.op == "forall" && !hasFreeBound(t, nil):
+		m := map[*Term]*Term{}
+		for _, b := range t.bvars {
+			m[b] = x.w.Fresh("sk_"+strings.SplitN(b.op, "!", 2)[0], b.sort)
+		}
+		return x.skolemize(ts.Subst(t.args[0], m))
+	case t.kind == kApp && t.op == "and":
+		out := make([]*Term, len(t.args))
+		for i, a := range t.args {
+			out[i] = x.skolemize(a)
+		}
+		return ts.And(out...)
+	case t.kind == kApp && t.op == "or":
+		out := make([]*Term, len(t.args))
+		for i, a := range t.args {
+			out[i] = x.skolemize(a)
+		}
+		return ts.Or(out...)
+	case t.kind == kApp && t.op == "=>":
+		return ts.Implies(t.args[0], x.skolemize(t.args[1]))
+	}
+	return t
+}
+
+// recordFacts remembers the conjuncts of an assumed fact, keyed by the guard
+// they were assumed under (nil = unconditional).
+func (x *Exec) recordFacts(t *Term) {
+	if x.facts == nil {
+		x.facts = map[int]map[int]bool{}
+	}
+	gid := -1
+	body := t
+	if t.kind == kApp && t.op == "=>" {
+		gid = t.args[0].id
+		body = t.args[1]
+	}
+	if x.facts[gid] == nil {
+		x.facts[gid] = map[int]bool{}
+	}
+	var add func(c *Term)
+	add = func(c *Term) {
+		if c.kind == kApp && c.op == "and" {
+			for _, a := range c.args {
+				add(a)
+			}
+			return
+		}
+		x.facts[gid][c.id] = true
+	}
+	add(body)
+}
+
+// dropKnown removes goal conjuncts that are literally among the facts assumed
+// unconditionally or under the same guard (e.g. an invariant passed on to a callee).
+func (x *Exec) dropKnown(guard, cond *Term) *Term {
+	if x.facts == nil {
+		return cond
+	}
+	known := func(c *Term) bool {
+		if x.facts[-1][c.id] {
+			return true
+		}
+		if x.facts[guard.id][c.id] {
+			return true
+		}
+		// guard is a conjunction: facts assumed under any subset-conjunction guard
+		if guard.kind == kApp && guard.op == "and" {
+			for _, g := range guard.args {
+				if x.facts[g.id][c.id] {
+					return true
+				}
+			}
+		}
+		return false
+	}
+	var conj []*Term
+	var walk func(c *Term)
+	walk = func(c *Term) {
+		if c.kind == kApp && c.op == "and" {
+			for _, a := range c.args {
+				walk(a)
+			}
+			return
+		}
+		if !known(c) {
+			conj = append(conj, c)
+		}
+	}
+	walk(cond)
+	return x.w.ts.And(conj...)
 }
